@@ -82,6 +82,21 @@ func (fr *Frame) assertsAfterNamed(x *ssa.Call, calleeName string, same func(*ss
 			continue
 		}
 		env := fr.contractEnv(fr.params, nil, fr.st, fr.entry)
+		// the call's arguments and result are visible as $arg0.. and $ret
+		for ai, av := range x.Call.Args {
+			if val, ok := fr.env[av]; ok {
+				env.vars[fmt.Sprintf("$arg%d", ai)] = cvOfVal(canonVal(val))
+			} else if c, ok := av.(*ssa.Const); ok {
+				env.vars[fmt.Sprintf("$arg%d", ai)] = cvOfVal(canonVal(fr.constVal(c)))
+			}
+		}
+		if rv, ok := fr.env[x]; ok && rv.K != VTuple {
+			env.vars["$ret"] = cvOfVal(canonVal(rv))
+		} else if ok {
+			for ri, e := range rv.El {
+				env.vars[fmt.Sprintf("$ret%d", ri)] = cvOfVal(canonVal(e))
+			}
+		}
 		base := env.resolve
 		blk, cur, st := fr.blk, fr.env, fr.st
 		_ = st
@@ -307,6 +322,10 @@ func (fr *Frame) callContract(x ssa.Instruction, callee *ssa.Function, c *Contra
 	// definitional postconditions (result component == term) are substituted
 	// into the result values, so that lengths stay syntactically visible
 	res, ens = substDefinitional(res, ens)
+	for _, rv := range res {
+		// type-validity again, now over the substituted components
+		fr.u.facts = append(fr.u.facts, validFacts(rv, fr.st.Next, nil)...)
+	}
 	for _, t := range ens {
 		fr.assume(t)
 	}
@@ -673,6 +692,7 @@ func (fr *Frame) appendBuiltin(x *ssa.Call, s, t *Val, tT types.Type) *Val {
 	}
 	newLen := Add(s.Len, n)
 	fits := Le(newLen, s.Cap)
+	fitsReal := fits
 	uniq1 := s.Unique && singleUse(x.Call.Args[0])
 	if uniq1 {
 		// s is exclusively owned and dead after this call: growing in place and
@@ -739,7 +759,7 @@ func (fr *Frame) appendBuiltin(x *ssa.Call, s, t *Val, tT types.Type) *Val {
 		}
 		fr.st.H[k] = h
 	}
-	return &Val{K: VSlice, T: x.Type(), Ref: resRef, Off: resOff, Len: newLen, Cap: Ite(fits, s.Cap, ncap), Unique: fits == False}
+	return &Val{K: VSlice, T: x.Type(), Ref: resRef, Off: resOff, Len: newLen, Cap: Ite(fitsReal, s.Cap, ncap), Unique: fits == False}
 }
 
 // ---- external models coded in Go (those that need shapes the contract language lacks)
@@ -1034,6 +1054,12 @@ func (v *Verifier) uniqueDef(x ssa.Value, depth int) bool {
 	case *ssa.Call:
 		if b, ok := d.Call.Value.(*ssa.Builtin); ok && b.Name() == "append" {
 			return v.uniqueDef(d.Call.Args[0], depth+1) && okUses(d)
+		}
+		if d.Call.IsInvoke() {
+			if mc := v.ifaceContract(&d.Call); mc != nil && contractResultUnique(mc) {
+				return okUses(d)
+			}
+			return false
 		}
 		if callee := d.Call.StaticCallee(); callee != nil {
 			if c := v.lib.Contracts[v.prog.names[callee]]; c != nil && contractResultUnique(c) {
